@@ -120,12 +120,20 @@ def gen(rng, tier, focus):
     # a data column that is itself called count (and one called text), grouped by, in every
     # position: names, types and values of the result columns are positional
     ds = dp.Dataset("qc", [{b"count": b"7", b"a": b"1", b"text": b"t"}, {b"count": b"7", b"a": b"2"}, {b"count": b"9", b"a": b"1", b"text": b"u"},
-                           {b"count": b"", b"a": b"1"}, {b"a": b"2", b"text": b"t"}, {b"count": b"count", b"a": b"1", b"bigint": b"5"}], "count-column")
+                           {b"count": b"", b"a": b"1"}, {b"a": b"2", b"text": b"t"}, {b"count": b"count", b"a": b"1", b"bigint": b"5"},
+                           {b"text": b'"x"', b"a": b"3"}, {b"text": b'say "hi"', b"a": b"3"}, {b"text": b'""', b"a": b"3"}, {b"text": b'"', b"a": b"3"},
+                           {b"text": b"x", b"a": b"3"}, {b"text": b"", b"a": b"3"}, {b"text": b'a""b', b"a": b"3"}, {b"text": b"a\"b", b"a": b"4"},
+                           # group values that are prefixes of one another, continued by bytes below and above a comma
+                           {b"a": b"5", b"p": b"ab"}, {b"a": b"5", b"p": b"ab c"}, {b"a": b"5", b"p": b"ab!x"}, {b"a": b"5", b"p": b"ab,z"},
+                           {b"a": b"5", b"p": b"ab-"}, {b"a": b"5", b"p": b"ab", b"text": b"t"}, {b"a": b"5", b"p": b"", b"text": b"u"}], "count-column")
     lines += ds.lines()
     fixed = [(b'a = "1" ; count', ("E", b"a", b"1", 0), [b"count"]), (b'a = "1" ; count, a', ("E", b"a", b"1", 0), [b"count", b"a"]),
              (b'a = "1" ; a, count', ("E", b"a", b"1", 0), [b"a", b"count"]), (b'count = "7" ; count, count', ("E", b"count", b"7", 0), [b"count", b"count"]),
              (b'count = "7" ; text, count, a', ("E", b"count", b"7", 0), [b"text", b"count", b"a"]), (b'count = "nope" ; count', ("E", b"count", b"nope", 0), [b"count"]),
-             (b'count = "count"', ("E", b"count", b"count", 0), []), (b'count = $1 ; bigint, count', ("E", b"count", b"", 1), [b"bigint", b"count"])]
+             (b'count = "count"', ("E", b"count", b"count", 0), []), (b'count = $1 ; bigint, count', ("E", b"count", b"", 1), [b"bigint", b"count"]),
+             (b'a = "5" ; p, a', ("E", b"a", b"5", 0), [b"p", b"a"]), (b'a = "5" ; p, p, a', ("E", b"a", b"5", 0), [b"p", b"p", b"a"]),
+             (b'^ a = "1" ; a, p', ("N", ("E", b"a", b"1", 0)), [b"a", b"p"]),
+             (b'text = $1 ; a, text', ("E", b"text", b"", 1), [b"a", b"text"]), (b'text = $1 | a = "4" ; text', ("O", [("E", b"text", b"", 1), ("E", b"a", b"4", 0)]), [b"text"])]
     for oi, opts in enumerate(OPTS[:2]):
         h = "qc_o%d" % oi
         lines.append("SQLOPEN %s qc %s" % (h, opts))
@@ -133,11 +141,21 @@ def gen(rng, tier, focus):
             m = max_ph(t)
             mode = ["direct", "prepared", "tx"][(qn + oi) % 3]
             argsets = [[("S", b"count")]] if m else [[]]
+            if txt.startswith(b"text = $1"):
+                # arguments that begin / end with a quote or contain a doubled one: bound verbatim
+                argsets = [[("S", v)] for v in (b'"x"', b'say "hi"', b'""', b'"', b"x", b"", b'a""b', b'a"b', b'"x"')]
             qid = "%s.s%d" % (h, qn)
             lines.append("SQLQ %s %s %s %s %d" % (qid, h, mode, core.enc_str(txt), len(argsets)))
             for a in argsets:
                 lines.append(enc_args(a))
             stmts.append((qid, ds, opts, mode, txt, argsets, m))
+        # placeholders with no argument at all / too few, on every path
+        for pn, (mode, txt, m, args) in enumerate([("direct", b"text = $1", 1, []), ("prepared", b"text = $1", 1, []), ("tx", b"text = $1 | a = $2", 2, []),
+                                                   ("direct", b"text = $1 | a = $2", 2, [("S", b"x")]), ("direct", b"text = $2", 2, [("S", b"x")])]):
+            qid = "%s.p%d" % (h, pn)
+            lines.append("SQLQ %s %s %s %s 1" % (qid, h, mode, core.enc_str(txt)))
+            lines.append(enc_args(args))
+            stmts.append((qid, ds, opts, mode, txt, [args], m))
         lines.append("SQLCLOSE " + h)
     # data source names whose option strings exercise Open's parsing (Dsn.v): repeated keys
     # (the first value counts), keys without value, empty pairs, other spellings of true, cache
